@@ -12,6 +12,29 @@ import vbuild
 
 def run_case(c):
     model, pool = vbuild.build(af, c["program"])
+    out = observe(model, pool, c["vec"], c["unit"])
+    if "edit" in c:
+        # history: freeze, query, unfreeze, re-parameterise, freeze again, query again
+        e = c["edit"]
+        model.freeze()
+        _ = model.prior_count, model.paths, model.unique_prior_paths
+        try:
+            model.instance_from_vector([unhex(x) for x in c["vec"]])
+        except BaseException:  # noqa
+            pass
+        model.unfreeze()
+        parent = model
+        for k in e["path"]:
+            parent = getattr(parent, k)
+        setattr(parent, e["arg"], vbuild.build_expr(af, e["new"], pool))
+        model.freeze()
+        out["phase2"] = observe(model, pool, c["vec2"], c["unit2"])
+        model.unfreeze()
+        out["phase3"] = observe(model, pool, c["vec2"], c["unit2"])
+    return out
+
+
+def observe(model, pool, vec_hex, unit_hex):
     idmap = {p.id: i for i, p in enumerate(pool)}
     out = {"tree": vbuild.abstract_model(af, model, idmap)}
     out["id_order_ok"] = all(pool[i].id < pool[i + 1].id for i in range(len(pool) - 1))
@@ -19,8 +42,8 @@ def run_case(c):
     out["upaths"] = [list(map(str, p)) for p in model.unique_prior_paths]
     out["count"] = model.prior_count
     out["ids"] = [idmap.get(p.id, -1) for p in model.priors_ordered_by_id]
-    vec = [unhex(x) for x in c["vec"]]
-    unit = [unhex(x) for x in c["unit"]]
+    vec = [unhex(x) for x in vec_hex]
+    unit = [unhex(x) for x in unit_hex]
 
     def guarded(f):
         try:
